@@ -166,7 +166,9 @@ type refEntry struct {
 	Content []byte
 }
 
-// ChunkMode 0: fixed Chunk bytes; 1: uniformly random in [1, Chunk].
+// ChunkMode 0: fixed Chunk bytes; 1: uniformly random in [1, Chunk]; 2: per id alternately Chunk
+// bytes (short) and 32 KiB + Chunk bytes (a full packet and more); 3: per chunk at random short
+// (1..Chunk) or full (32 KiB .. 32 KiB + Chunk): short payloads before, between and after full ones.
 // StatWeight: percentage with which a STAT is preferred when both a STAT and DATA could be sent.
 // Pick: which active id gets the next DATA packet: 0 random, 1 oldest request, 2 newest request, 3 round robin.
 // Ending: 0 = on FIN echo FIN then close; 1 = on FIN close without echo; 2 = close after
@@ -184,6 +186,7 @@ type refSendScript struct {
 type refTransfer struct {
 	id  uint32
 	off int
+	k   int // chunks sent so far
 }
 
 type refSender struct {
@@ -329,9 +332,21 @@ func (s *refSender) writer() {
 				if n < 1 {
 					n = 1
 				}
-				if s.script.ChunkMode == 1 {
+				switch s.script.ChunkMode {
+				case 1:
 					n = 1 + rng.Intn(n)
+				case 2:
+					if t.k%2 == 1 {
+						n += 32768
+					}
+				case 3:
+					if rng.Intn(2) == 0 {
+						n = 1 + rng.Intn(n)
+					} else {
+						n = 32768 + rng.Intn(n+1)
+					}
 				}
+				t.k++
 				if n > len(content)-t.off {
 					n = len(content) - t.off
 				}
